@@ -286,7 +286,63 @@ func (fx *FnCtx) frameCheckSliceWrite(fr *Frame, ins ssa.Instruction, st *State,
 	fx.oblige("frame", fmt.Sprintf("%s/frame/sort(%s)", fr.obName(), desc), ins.String(), st, goal, ins.Pos(), fx.frameProps())
 }
 
+// sortFacts: what sort.Slice(s, less) establishes (assumed contract of the library, given a comparator that is a
+// strict weak order): the elements are permuted, and afterwards no later element is less than an earlier one. The
+// comparator's meaning comes from the closure's own (verified) `comparator` clause; its precondition is checked
+// for all index pairs in range.
 func (fx *FnCtx) sortFacts(fr *Frame, c *ssa.CallCommon, s Term, et types.Type, hOld, hNew Term, st *State) {
+	key, _ := fx.tm.heapKey(et)
+	_ = key
+	// permutation
+	pf := fx.s.fresh("sortperm")
+	fx.s.lines = append(fx.s.lines, fmt.Sprintf("(declare-fun %s (Int) Int)", pf))
+	fx.s.assume(st.guard, fmt.Sprintf("(forall ((j Int)) (! (=> (and (<= 0 j) (< j (slen %s))) (and (<= 0 (%s j)) (< (%s j) (slen %s)) (= (select %s (elemref %s j)) (select %s (elemref %s (%s j)))))) :pattern ((select %s (elemref %s j)))))", s, pf, pf, s, hNew, s, hOld, s, pf, hNew, s))
+	// the permutation is injective (so nothing is duplicated or lost); stated without creating new index terms
+	fx.s.assume(st.guard, fmt.Sprintf("(forall ((a Int) (b Int)) (! (=> (and (<= 0 a) (< a b) (< b (slen %s))) (not (= (%s a) (%s b)))) :pattern ((%s a) (%s b))))", s, pf, pf, pf, pf))
+	cv := fr.val(c.Args[1])
+	if cv.clo == nil {
+		return
+	}
+	fc := fx.eng.contractFor(cv.clo.fn)
+	if fc == nil {
+		return
+	}
+	env := fx.calleeEnv(cv.clo.fn, []Val{{t: "|a?|"}, {t: "|b?|"}}, cv.clo.bindings)
+	// precondition of the comparator for every pair of indices in range (checked in the pre-sort state)
+	if len(fc.Requires) > 0 {
+		ia := fx.s.freshConst("cmp_i", "Int")
+		ib := fx.s.freshConst("cmp_j", "Int")
+		penv := fx.calleeEnv(cv.clo.fn, []Val{{t: ia}, {t: ib}}, cv.clo.bindings)
+		rng := fmt.Sprintf("(and (<= 0 %s) (< %s (slen %s)) (<= 0 %s) (< %s (slen %s)))", ia, ia, s, ib, ib, s)
+		pst := st.clone()
+		pst.guard = fx.s.define("g", "Bool", and(st.guard, rng))
+		for i, rq := range fc.Requires {
+			t := fx.evalIn(rq.E, penv, pst, pst, nil).v.t
+			fx.oblige("pre@call", fmt.Sprintf("%s/pre@call/%s/%d", fr.obName(), fx.eng.relName(cv.clo.fn), i+1), rq.Text+" (for every pair of indices sort.Slice may pass)", pst, t, c.Pos(), []string{"C05"})
+		}
+	}
+	if fc.Comparator == nil {
+		return
+	}
+	// sortedness: forall a < b in range: !less(b, a), in the post-sort state
+	ev := &Evaluator{fx: fx, env: env, st: st, old: st, pkg: fx.pkg, bound: map[string]SVal{}}
+	ps := cv.clo.fn.Params
+	ev.bound[ps[0].Name()] = SVal{v: Val{t: "|b?|"}, typ: intT}
+	ev.bound[ps[1].Name()] = SVal{v: Val{t: "|a?|"}, typ: intT}
+	trigs := map[string][]Term{}
+	ev.trigs = &trigs
+	fx.s.inQuant++
+	less := ev.eval(fc.Comparator.E).v.t
+	fx.s.inQuant--
+	pat := ""
+	if ta, tb := trigs["|a?|"], trigs["|b?|"]; len(ta) > 0 && len(tb) > 0 {
+		pat = " :pattern (" + ta[0] + " " + tb[0] + ")"
+	}
+	body := fmt.Sprintf("(=> (and (<= 0 |a?|) (< |a?| |b?|) (< |b?| (slen %s))) (not %s))", s, less)
+	if pat != "" {
+		body = "(! " + body + pat + ")"
+	}
+	fx.s.assume(st.guard, fmt.Sprintf("(forall ((|a?| Int) (|b?| Int)) %s)", body))
 }
 
 
